@@ -17,14 +17,32 @@ def Chunk.tmpOn (f : Nat) : Chunk → Int
   | .file fid _ _ t _ => if fid = f ∧ t = true then 1 else 0
   | .mem .. => 0
 
-/-- the two kinds of resource: `false` = descriptors, `true` = names of temp files -/
-def cres (k : Bool) (f : Nat) (c : Chunk) : Int := if k then c.tmpOn f else c.fdOn f
+/-- c->file.length if `c` is the temp chunk that owns file `f` -/
+def Chunk.lenOn (f : Nat) : Chunk → Int
+  | .file fid _ len t _ => if fid = f ∧ t = true then len else 0
+  | .mem .. => 0
 
-def csum (k : Bool) (f : Nat) : List Chunk → Int
+/-- the kinds of resource: descriptors, names of temp files, and (ghost) the
+    bytes the owning temp chunk accounts for -/
+inductive Kind where
+  | fd
+  | name
+  | tlen
+deriving DecidableEq
+
+def cres : Kind → Nat → Chunk → Int
+  | .fd, f, c => c.fdOn f
+  | .name, f, c => c.tmpOn f
+  | .tlen, f, c => c.lenOn f
+
+def csum (k : Kind) (f : Nat) : List Chunk → Int
   | [] => 0
   | c :: cs => cres k f c + csum k f cs
 
-def wres (k : Bool) (w : World) (f : Nat) : Int := if k then (w.files f).nlink else (w.files f).nfd
+def wres : Kind → World → Nat → Int
+  | .fd, w, f => (w.files f).nfd
+  | .name, w, f => (w.files f).nlink
+  | .tlen, w, f => (w.files f).tl
 
 /-- conservation: what the world holds beyond what the chunks account for
     does not change (in a well-accounted system that difference is 0 for
@@ -32,17 +50,17 @@ def wres (k : Bool) (w : World) (f : Nat) : Int := if k then (w.files f).nlink e
 def Conserve (w : World) (cs : List Chunk) (w' : World) (cs' : List Chunk) : Prop :=
   ∀ k f, wres k w' f - csum k f cs' = wres k w f - csum k f cs
 
-@[simp] theorem csum_nil (k : Bool) (f : Nat) : csum k f [] = 0 := rfl
-@[simp] theorem csum_cons (k : Bool) (f : Nat) (c : Chunk) (cs : List Chunk) :
+@[simp] theorem csum_nil (k : Kind) (f : Nat) : csum k f [] = 0 := rfl
+@[simp] theorem csum_cons (k : Kind) (f : Nat) (c : Chunk) (cs : List Chunk) :
     csum k f (c :: cs) = cres k f c + csum k f cs := rfl
 
-@[simp] theorem csum_append (k : Bool) (f : Nat) (a b : List Chunk) :
+@[simp] theorem csum_append (k : Kind) (f : Nat) (a b : List Chunk) :
     csum k f (a ++ b) = csum k f a + csum k f b := by
   induction a with
   | nil => simp
   | cons c cs ih => simp [ih, Int.add_assoc]
 
-@[simp] theorem cres_mem (k : Bool) (f : Nat) (d : Bytes) (off cap : Nat) : cres k f (.mem d off cap) = 0 := by
+@[simp] theorem cres_mem (k : Kind) (f : Nat) (d : Bytes) (off cap : Nat) : cres k f (.mem d off cap) = 0 := by
   cases k <;> rfl
 
 theorem Conserve.refl (w : World) (cs : List Chunk) : Conserve w cs w cs := fun _ _ => rfl
@@ -65,17 +83,20 @@ theorem Conserve.frame_left {w w' : World} {a a' : List Chunk} (h : Conserve w a
   omega
 
 /-- the world's counters did not change -/
-def SameRes (w w' : World) : Prop := ∀ f, (w'.files f).nfd = (w.files f).nfd ∧ (w'.files f).nlink = (w.files f).nlink
+def SameRes (w w' : World) : Prop :=
+  ∀ f, (w'.files f).nfd = (w.files f).nfd ∧ (w'.files f).nlink = (w.files f).nlink ∧
+    (w'.files f).tl = (w.files f).tl
 
-theorem SameRes.refl (w : World) : SameRes w w := fun _ => ⟨rfl, rfl⟩
+theorem SameRes.refl (w : World) : SameRes w w := fun _ => ⟨rfl, rfl, rfl⟩
 
 theorem SameRes.trans {a b c : World} (h1 : SameRes a b) (h2 : SameRes b c) : SameRes a c :=
-  fun f => ⟨(h2 f).1.trans (h1 f).1, (h2 f).2.trans (h1 f).2⟩
+  fun f => ⟨(h2 f).1.trans (h1 f).1, (h2 f).2.1.trans (h1 f).2.1, (h2 f).2.2.trans (h1 f).2.2⟩
 
-theorem SameRes.wres {w w' : World} (h : SameRes w w') (k : Bool) (f : Nat) : wres k w' f = wres k w f := by
+theorem SameRes.wres {w w' : World} (h : SameRes w w') (k : Kind) (f : Nat) : wres k w' f = wres k w f := by
   cases k
   · exact (h f).1
-  · exact (h f).2
+  · exact (h f).2.1
+  · exact (h f).2.2
 
 theorem SameRes.conserve {w w' : World} (h : SameRes w w') (cs : List Chunk) : Conserve w cs w' cs :=
   fun k f => by rw [h.wres]
@@ -91,7 +112,7 @@ theorem pushOversized_res (w : World) (n : Nat) : SameRes w (pushOversized w n) 
   · exact SameRes.refl w
   · split
     · split
-      · exact fun _ => ⟨rfl, rfl⟩
+      · exact fun _ => ⟨rfl, rfl, rfl⟩
       · exact SameRes.refl w
     · exact SameRes.refl w
 
@@ -102,15 +123,15 @@ theorem acquire_res (w : World) (n : Nat) : SameRes w (acquire w n).1 := by
   · split
     · dsimp only
       split
-      · exact fun _ => ⟨rfl, rfl⟩
+      · exact fun _ => ⟨rfl, rfl, rfl⟩
       · exact SameRes.refl w
     · exact SameRes.refl w
 
 theorem popM_res (w : World) : SameRes w (popM w).1 := by
-  unfold popM; split <;> exact fun _ => ⟨rfl, rfl⟩
+  unfold popM; split <;> exact fun _ => ⟨rfl, rfl, rfl⟩
 
 theorem popW_res (w : World) : SameRes w (popW w).1 := by
-  unfold popW; split <;> exact fun _ => ⟨rfl, rfl⟩
+  unfold popW; split <;> exact fun _ => ⟨rfl, rfl, rfl⟩
 
 theorem pwrite_res (w : World) (fid pos : Nat) (d : Bytes) : SameRes w (w.pwrite fid pos d) := by
   intro f
@@ -118,34 +139,46 @@ theorem pwrite_res (w : World) (fid pos : Nat) (d : Bytes) : SameRes w (w.pwrite
   · subst h; simp [World.pwrite]
   · simp [World.pwrite, setFile_files_other w _ h]
 
-theorem wres_openFd (k : Bool) (w : World) (fid f : Nat) :
-    wres k (w.openFd fid) f = wres k w f + (if fid = f ∧ k = false then 1 else 0) := by
-  by_cases h : f = fid
-  · subst h; cases k <;> simp [wres, World.openFd]
-  · have h' : ¬ fid = f := fun e => h e.symm
-    cases k <;> simp [wres, World.openFd, setFile_files_other w _ h, h']
+/-- 1 for kind `k0` on file `fid`, else 0 -/
+def hit (k k0 : Kind) (fid f : Nat) : Int := if fid = f ∧ k = k0 then 1 else 0
 
-theorem wres_closeFd (k : Bool) (w : World) (fid f : Nat) :
-    wres k (w.closeFd fid) f = wres k w f - (if fid = f ∧ k = false then 1 else 0) := by
+theorem wres_openFd (k : Kind) (w : World) (fid f : Nat) :
+    wres k (w.openFd fid) f = wres k w f + hit k .fd fid f := by
   by_cases h : f = fid
-  · subst h; cases k <;> simp [wres, World.closeFd]
+  · subst h; cases k <;> simp [wres, World.openFd, hit]
   · have h' : ¬ fid = f := fun e => h e.symm
-    cases k <;> simp [wres, World.closeFd, setFile_files_other w _ h, h']
+    cases k <;> simp [wres, World.openFd, setFile_files_other w _ h, h', hit]
 
-theorem wres_unlink (k : Bool) (w : World) (fid f : Nat) :
-    wres k (w.unlink fid) f = wres k w f - (if fid = f ∧ k = true then 1 else 0) := by
+theorem wres_closeFd (k : Kind) (w : World) (fid f : Nat) :
+    wres k (w.closeFd fid) f = wres k w f - hit k .fd fid f := by
   by_cases h : f = fid
-  · subst h; cases k <;> simp [wres, World.unlink]
+  · subst h; cases k <;> simp [wres, World.closeFd, hit]
   · have h' : ¬ fid = f := fun e => h e.symm
-    cases k <;> simp [wres, World.unlink, setFile_files_other w _ h, h']
+    cases k <;> simp [wres, World.closeFd, setFile_files_other w _ h, h', hit]
 
-theorem cres_file (k : Bool) (f fid off len : Nat) (t : Bool) (fd : Fd) :
+theorem wres_unlink (k : Kind) (w : World) (fid len f : Nat) :
+    wres k (w.unlink fid len) f = wres k w f - hit k .name fid f - len * hit k .tlen fid f := by
+  by_cases h : f = fid
+  · subst h; cases k <;> simp [wres, World.unlink, hit]
+  · have h' : ¬ fid = f := fun e => h e.symm
+    cases k <;> simp [wres, World.unlink, setFile_files_other w _ h, h', hit]
+
+theorem wres_addTl (k : Kind) (w : World) (fid : Nat) (n : Int) (f : Nat) :
+    wres k (w.addTl fid n) f = wres k w f + n * hit k .tlen fid f := by
+  by_cases h : f = fid
+  · subst h; cases k <;> simp [wres, World.addTl, hit]
+  · have h' : ¬ fid = f := fun e => h e.symm
+    cases k <;> simp [wres, World.addTl, setFile_files_other w _ h, h', hit]
+
+theorem cres_file (k : Kind) (f fid off len : Nat) (t : Bool) (fd : Fd) :
     cres k f (.file fid off len t fd) =
-      if k then (if fid = f ∧ t = true then 1 else 0) else (if fid = f ∧ fd.isOpen = true then 1 else 0) := by
-  cases k <;> rfl
+      (if fd.isOpen = true then hit k .fd fid f else 0) +
+      (if t = true then hit k .name fid f + len * hit k .tlen fid f else 0) := by
+  by_cases hf : fid = f <;> cases k <;> cases t <;> cases hfd : fd.isOpen <;>
+    simp [cres, Chunk.fdOn, Chunk.tmpOn, Chunk.lenOn, hit, hf, hfd]
 
 /-- chunk_release() gives back exactly what the chunk holds -/
-theorem wres_release (k : Bool) (w : World) (c : Chunk) (f : Nat) :
+theorem wres_release (k : Kind) (w : World) (c : Chunk) (f : Nat) :
     wres k (release w c) f = wres k w f - cres k f c := by
   cases c with
   | mem d off cap =>
@@ -157,15 +190,14 @@ theorem wres_release (k : Bool) (w : World) (c : Chunk) (f : Nat) :
       · rfl
   | file fid off len t fd =>
     simp only [release, cres_file]
-    cases t <;> cases hfd : fd.isOpen <;> cases k <;>
-      simp [wres_closeFd, wres_unlink, hfd] <;> split <;> omega
+    cases t <;> cases hfd : fd.isOpen <;> simp [wres_closeFd, wres_unlink] <;> omega
 
 theorem release_conserve (w : World) (c : Chunk) : Conserve w [c] (release w c) [] := by
   intro k f
   rw [wres_release]
   simp
 
-theorem wres_releaseAll (k : Bool) (w : World) (cs : List Chunk) (f : Nat) :
+theorem wres_releaseAll (k : Kind) (w : World) (cs : List Chunk) (f : Nat) :
     wres k (releaseAll w cs) f = wres k w f - csum k f cs := by
   induction cs generalizing w with
   | nil => simp [releaseAll]
@@ -181,13 +213,13 @@ theorem releaseAll_conserve (w : World) (cs : List Chunk) : Conserve w cs (relea
 
 /-! ## per-function conservation -/
 
-theorem csum_setLast {cs : List Chunk} {c : Chunk} (k : Bool) (f : Nat) (c' : Chunk)
+theorem csum_setLast {cs : List Chunk} {c : Chunk} (k : Kind) (f : Nat) (c' : Chunk)
     (hl : cs.getLast? = some c) : csum k f (setLast cs c') = csum k f cs - cres k f c + cres k f c' := by
   conv => rhs; rw [split_last hl]
   simp only [setLast, csum_append, csum_cons, csum_nil]
   omega
 
-theorem csum_pushChunk (k : Bool) (f : Nat) (q : Cq) (c : Chunk) (n : Nat) :
+theorem csum_pushChunk (k : Kind) (f : Nat) (q : Cq) (c : Chunk) (n : Nat) :
     csum k f (pushChunk q c n).chunks = csum k f q.chunks + cres k f c := by
   simp [pushChunk]
 
@@ -197,7 +229,7 @@ def CStep (w : World) (q : Cq) (r : World × Cq) : Prop := Conserve w q.chunks r
 theorem CStep.mk' {w : World} {q : Cq} {w' : World} {q' : Cq} (h : Conserve w q.chunks w' q'.chunks) :
     CStep w q (w', q') := h
 
-theorem appendMemExtend_csum {q q' : Cq} {d : Bytes} (h : appendMemExtend q d = some q') (k : Bool) (f : Nat) :
+theorem appendMemExtend_csum {q q' : Cq} {d : Bytes} (h : appendMemExtend q d = some q') (k : Kind) (f : Nat) :
     csum k f q'.chunks = csum k f q.chunks := by
   unfold appendMemExtend at h
   split at h
@@ -245,13 +277,14 @@ theorem appendBufferOpen_res (w : World) (q : Cq) (d : Bytes) : CStep w q (appen
 
 theorem release_mem_res (w : World) (d : Bytes) (off cap : Nat) : SameRes w (release w (.mem d off cap)) := by
   intro f
-  have h0 := wres_release false w (.mem d off cap) f
-  have h1 := wres_release true w (.mem d off cap) f
-  simp only [wres, cres_mem, Int.sub_zero, Bool.false_eq_true, if_false, if_true] at h0 h1
-  exact ⟨h0, h1⟩
+  have h0 := wres_release .fd w (.mem d off cap) f
+  have h1 := wres_release .name w (.mem d off cap) f
+  have h2 := wres_release .tlen w (.mem d off cap) f
+  simp only [wres, cres_mem, Int.sub_zero] at h0 h1 h2
+  exact ⟨h0, h1, h2⟩
 
 theorem useExisting_csum {q : Cq} {old : Bytes} {off cap : Nat} (data : Bytes)
-    (hl : q.chunks.getLast? = some (.mem old off cap)) (k : Bool) (f : Nat) :
+    (hl : q.chunks.getLast? = some (.mem old off cap)) (k : Kind) (f : Nat) :
     csum k f (useExisting q old off cap data).chunks = csum k f q.chunks := by
   unfold useExisting
   dsimp only
@@ -296,7 +329,7 @@ theorem appendFile_res (w : World) (q : Cq) (fid off len : Nat) (fd : Bool) :
   split
   · refine CStep.mk' fun k f => ?_
     rw [csum_pushChunk, cres_file]
-    cases fd <;> cases k <;> simp [wres_openFd, Fd.isOpen] <;> split <;> omega
+    cases fd <;> simp [wres_openFd, Fd.isOpen] <;> omega
   · exact Conserve.refl w q.chunks
 
 theorem appendChunkqueue_res (w : World) (dest src : Cq) :
@@ -366,7 +399,7 @@ theorem removeEmpty_res (w : World) (q : Cq) : CStep w q (removeEmpty w q) := by
     rw [h2] at hr
     exact hf.trans hr
 
-theorem compactMemOffset_csum (q : Cq) (k : Bool) (f : Nat) :
+theorem compactMemOffset_csum (q : Cq) (k : Kind) (f : Nat) :
     csum k f (compactMemOffset q).chunks = csum k f q.chunks := by
   unfold compactMemOffset
   split
@@ -416,7 +449,7 @@ theorem dupFile_res (w : World) (q : Cq) (fid off len n : Nat) (fd : Fd) :
       (pushChunk q (.file fid off len false fd) n).chunks := by
   intro k f
   rw [csum_pushChunk, cres_file]
-  cases hfd : fd.isOpen <;> cases k <;> simp [wres_openFd] <;> split <;> omega
+  cases hfd : fd.isOpen <;> simp [wres_openFd] <;> omega
 
 theorem stealPartial_res (w : World) (dest : Cq) (c : Chunk) (n : Nat) :
     CStep w dest (stealPartial w dest c n) := by
@@ -594,19 +627,20 @@ theorem reset_res (w : World) (q : Cq) : CStep w q (reset w q) := releaseAll_con
 
 /-! ### temp files -/
 
-theorem wres_createTemp (k : Bool) (w : World) (dir f : Nat) :
-    wres k (createTemp w dir).1 f = wres k w f + (if w.nfiles = f then 1 else 0) := by
+theorem wres_createTemp (k : Kind) (w : World) (dir f : Nat) :
+    wres k (createTemp w dir).1 f = wres k w f + hit k .fd w.nfiles f + hit k .name w.nfiles f := by
   by_cases h : f = w.nfiles
-  · subst h; cases k <;> simp [wres, createTemp, World.addFile]
+  · subst h; cases k <;> simp [wres, createTemp, World.addFile, hit]
   · have h' : ¬ w.nfiles = f := fun e => h e.symm
-    cases k <;> simp [wres, createTemp, World.addFile, h, h']
+    cases k <;> simp [wres, createTemp, World.addFile, h, h', hit]
 
 theorem createTemp_res (w : World) (dir : Nat) (cs : List Chunk) :
     Conserve w cs (createTemp w dir).1 (cs ++ [.file (createTemp w dir).2 0 0 true .rw]) := by
   intro k f
   rw [wres_createTemp, csum_append]
   simp only [csum_cons, csum_nil, cres_file, createTemp]
-  cases k <;> simp [Fd.isOpen] <;> split <;> omega
+  simp [Fd.isOpen]
+  omega
 
 /-- the chunk list after the directory loop: a new temp chunk if mkostemp() succeeded -/
 def withTemp (cs : List Chunk) : Option Nat → List Chunk
@@ -720,15 +754,19 @@ theorem tempfileErr_res {w : World} {q : Cq} {e : Bool} {w' : World} {q' : Cq} {
   rw [bumpDir_chunks] at this
   exact this
 
-theorem writeGrow_res (w : World) (q : Cq) (d : Bytes) (n : Nat) :
-    Conserve w q.chunks (writeLast w q d) (growLast q n).chunks := by
+theorem writeGrow_res (w : World) (q : Cq) (d : Bytes) :
+    Conserve w q.chunks (writeLast w q d) (growLast q d.length).chunks := by
   unfold writeLast growLast
   split
   · rename_i fid off len t fd hl
-    refine Conserve.of_csum (pwrite_res w fid len d) fun k f => ?_
+    intro k f
     simp only
-    rw [csum_setLast k f _ hl, cres_file, cres_file]
-    omega
+    rw [csum_setLast k f _ hl, cres_file, cres_file, wres_addTl, (pwrite_res w fid len d).wres]
+    by_cases hk : fid = f ∧ k = Kind.tlen
+    · have : hit k .tlen fid f = 1 := by simp [hit, hk]
+      cases t <;> simp [this] <;> omega
+    · have : hit k .tlen fid f = 0 := by simp [hit, hk]
+      cases t <;> simp [this] <;> omega
   · exact Conserve.refl w _
 
 theorem mtLoop_res (fuel : Nat) (w : World) (q : Cq) (d : Bytes) :
@@ -739,13 +777,15 @@ theorem mtLoop_res (fuel : Nat) (w : World) (q : Cq) (d : Bytes) :
   | case3 fuel w q d w1 q1 hg h0 => exact getAppendTempfile_res hg
   | case4 fuel w q d w1 q1 hg h0 p he =>
     exact Conserve.trans (getAppendTempfile_res hg)
-      (((popW_res w1).conserve _).trans (writeGrow_res p.1 q1 d d.length))
+      (((popW_res w1).conserve _).trans (writeGrow_res p.1 q1 d))
   | case5 fuel w q d w1 q1 hg h0 p a he hge =>
     exact Conserve.trans (getAppendTempfile_res hg)
-      (((popW_res w1).conserve _).trans (writeGrow_res p.1 q1 d d.length))
+      (((popW_res w1).conserve _).trans (writeGrow_res p.1 q1 d))
   | case6 fuel w q d w1 q1 hg h0 p a he hlt ih =>
-    exact Conserve.trans (getAppendTempfile_res hg)
-      ((((popW_res w1).conserve _).trans (writeGrow_res p.1 q1 (d.take a) a)).trans ih)
+    have hw := writeGrow_res p.1 q1 (d.take a)
+    have : (d.take a).length = a := by rw [List.length_take]; omega
+    rw [this] at hw
+    exact Conserve.trans (getAppendTempfile_res hg) ((((popW_res w1).conserve _).trans hw).trans ih)
   | case7 fuel w q d w1 q1 hg h0 p he ih =>
     exact Conserve.trans (getAppendTempfile_res hg) (((popW_res w1).conserve _).trans ih)
   | case8 fuel w q d w1 q1 hg h0 p he w2 q2 ht ih =>
@@ -798,8 +838,8 @@ theorem cqmemWrite_res {toTemp : World → Cq → World × Cq × Bool} (ht : ToT
   dsimp only
   have hp := (popW_res w).conserve dest.chunks
   split
-  · exact (hp.trans (writeGrow_res _ dest _ _)).trans (cqmemWritten_res ht _ _ _ _)
-  · exact (hp.trans (writeGrow_res _ dest _ _)).trans (cqmemWritten_res ht _ _ _ _)
+  · exact (hp.trans (writeGrow_res _ dest _)).trans (cqmemWritten_res ht _ _ _ _)
+  · exact (hp.trans (writeGrow_res _ dest _)).trans (cqmemWritten_res ht _ _ _ _)
   · exact hp
   · exact hp.trans (tempfileErr_res (w' := (tempfileErr (popW w).1 dest true).1)
       (q' := (tempfileErr (popW w).1 dest true).2.1) (r := (tempfileErr (popW w).1 dest true).2.2) rfl)
@@ -975,15 +1015,17 @@ theorem run_conserve (s : Sys) (ops : List Op) : Conserve s.w s.chunks (run s op
     apart from the `base f` names that exist independently of the queues (1 for
     a source file) a file's name exists iff a temp chunk owns it -/
 def Acct (base : Nat → Int) (s : Sys) : Prop :=
-  ∀ f, (s.w.files f).nfd = csum false f s.chunks ∧ (s.w.files f).nlink = base f + csum true f s.chunks
+  ∀ f, (s.w.files f).nfd = csum .fd f s.chunks ∧ (s.w.files f).nlink = base f + csum .name f s.chunks ∧
+    (s.w.files f).tl = csum .tlen f s.chunks
 
 theorem Acct.of_conserve {base : Nat → Int} {s s' : Sys} (h : Acct base s)
     (hc : Conserve s.w s.chunks s'.w s'.chunks) : Acct base s' := by
   intro f
-  have h0 := hc false f
-  have h1 := hc true f
-  obtain ⟨a, b⟩ := h f
-  simp only [wres, Bool.false_eq_true, if_false, if_true] at h0 h1
-  exact ⟨by omega, by omega⟩
+  have h0 := hc .fd f
+  have h1 := hc .name f
+  have h2 := hc .tlen f
+  obtain ⟨a, b, c⟩ := h f
+  simp only [wres] at h0 h1 h2
+  exact ⟨by omega, by omega, by omega⟩
 
 end LtVerif.Cq
